@@ -158,7 +158,13 @@ def sub_scrubber(rgx, txt: str, default_ns: str, default_ew: str) -> str:
     # Only use ocr_scrub if the rgx being used is the ocr_scrub regex.
     ocr_scrub = rgx == pp_twprge_ocr_scrub
     matches = rgx.finditer(txt)
+    already_replaced = set()
     for match in matches:
+        if match.group(0) in already_replaced:
+            # `.replace()` below swaps in every occurrence at once, so doing
+            # it again for a repeated Twp/Rge would only pile up spaces.
+            continue
+        already_replaced.add(match.group(0))
         clean_twprge = unpack_twprge(
             match,
             default_ns=default_ns,
